@@ -63,6 +63,12 @@ def mask_grid_dataset(
     mask = mask.isel(bounds)
     dataset = dataset.isel(bounds)
 
+    # The mask is applied by position.
+    # Its coordinates describe the same cells as the dataset coordinates.
+    # If they were left on the mask they would be attached to every masked variable,
+    # which clashes with datasets that store latitude and longitude as plain variables.
+    mask = mask.drop_vars(list(mask.coords.keys()))
+
     mfdataset_names: list[pathlib.Path] = []
 
     logger.info("Applying masks...")
